@@ -8,11 +8,15 @@ float / Fraction, glibc libm within 1 ulp), set-valued where the statement
 leaves a choice.
 """
 import itertools
+import sys
 from fractions import Fraction
 
 from vx.core import px
 from vx.model import numbers as N
 from vx.model import numbers2 as M
+
+if hasattr(sys, "set_int_max_str_digits"):
+    sys.set_int_max_str_digits(0)   # results such as (2^70)^4096 have > 4300 digits
 
 ID = "C02"
 LEVEL = "exploration"
@@ -171,6 +175,13 @@ def nontrivial(tree, alts):
 
 # ---- execution ---------------------------------------------------------------
 
+def setup(w, tier):
+    """The float table keeps whichever of +0.0 / -0.0 is created first (finding F-C03-1); reading the
+    literal 0.0 first pins the usual state, also after a worker restart."""
+    w.setup_cases.append("g(X = 0.0) .")
+    px.run_goals(w, ["g(X = 0.0)"])
+
+
 def judge(res, alts):
     """-> (label, violation kind | None, observed text)"""
     if res.abn:
@@ -214,13 +225,17 @@ def sig_of(case, vk):
 def run_cases(w, cases):
     """-> list of (case, text, alts, Res)"""
     out = []
+    ref = {}
+    for c in cases:
+        ref[id(c)] = M.ref_eval(tree_of(c))
+    cases = [c for c in cases if M.SKIP not in ref[id(c)]]
     plain = [c for c in cases if c[0] != "unbody"]
     body = [c for c in cases if c[0] == "unbody"]
     if plain:
         texts = [M.tree_text(tree_of(c)) for c in plain]
         rs = px.run_goals(w, ["g(X is %s)" % t for t in texts])
         for c, t, r in zip(plain, texts, rs):
-            out.append((c, "X is " + t, M.ref_eval(tree_of(c)), r))
+            out.append((c, "X is " + t, ref[id(c)], r))
     if body:
         texts = [M.tree_text(tree_of(c)) for c in body]
         names = ["c02b_%d_%d" % (M.UNARY.index(c[1]), U_ENC.index(c[2])) for c in body]
@@ -228,7 +243,7 @@ def run_cases(w, cases):
         w.consult(prog)
         rs = px.run_goals(w, ["g(%s(X))" % n for n in names])
         for c, t, r in zip(body, texts, rs):
-            out.append((c, "p(X) :- X is %s.  ?- p(X)" % t, M.ref_eval(tree_of(c)), r))
+            out.append((c, "p(X) :- X is %s.  ?- p(X)" % t, ref[id(c)], r))
     return out
 
 
@@ -247,7 +262,10 @@ def run_shard(w, shard, tier):
 
 def recheck(w, case, tier):
     c = case["case"]
-    (_, text, alts, r), = run_cases(w, [c])
+    rs = run_cases(w, [c])
+    if not rs:
+        return None
+    (_, text, alts, r), = rs
     label, vk, obs = judge(r, alts)
     if vk:
         return {"sig": sig_of(c, vk), "case": case, "expected": M.show_alts(alts), "observed": str(obs)}
